@@ -28,6 +28,16 @@ impl WriteSource for pr::Expr {
     fn write(&self, mut opt: WriteOpt) -> Option<String> {
         let mut r = String::new();
 
+        // an operand of an operator can carry an alias only as `(alias = expr)`
+        if self.alias.is_some() && opt.context_strength > 10 {
+            let mut inner = opt.clone();
+            inner.context_strength = 0;
+            inner.unbound_expr = false;
+            inner.binary_position = super::Position::Unspecified;
+            inner.consume_width(2)?;
+            return Some(format!("({})", self.write(inner)?));
+        }
+
         if let Some(alias) = &self.alias {
             r += opt.consume(&write_ident_part(alias))?;
             r += opt.consume(" = ")?;
